@@ -17,6 +17,8 @@ def literal(max_parts=8):
         st.sampled_from(_HH).map(lambda h: "\\u00%02x" % h),
         st.sampled_from(["\\n", "\\r", "\\t", "\\\\", '\\"', "\\'"]),
         st.sampled_from(["#", ";", "{", "}", "set", " ", "//", "/*"]),
+        # fragments that look like the pretty-printer's own layout (as_text post-processes spacing around { } ;)
+        st.sampled_from([" ;\n", ";\n", " {\n", "}\n", "\n    ", " ; ", " ;", "{ }", "\n\n", " \n", "\t;"]),
     )
     simple = st.text(alphabet="abcdefghijklmnopqrstuvwxyzABCDEFGHIJKLMNOPQRSTUVWXYZ0123456789/._-: ", max_size=16)
     return st.one_of(simple, st.lists(part, max_size=max_parts).map("".join)).map(lambda s: '"' + s + '"')
